@@ -543,6 +543,14 @@ func (g *gcase) prefixKeyCase() {
 		if r.Chance(20) {
 			g.out.P("get t %s", hx.Hex(absent))
 		}
+		if r.Chance(40) {
+			// a longer key goes first: K's node is already owned by the txn when K itself is deleted (and merged
+			// with its remaining child if only one is left)
+			for i, n := 0, 1+r.Intn(len(below)-1); i < n; i++ {
+				g.out.P("del %s", hx.Hex(below[i]))
+				delete(g.cur, string(below[i]))
+			}
+		}
 		g.out.P("del %s", hx.Hex(K))
 		delete(g.cur, string(K))
 		for i, n := 0, r.Intn(4); i < n; i++ {
